@@ -27,6 +27,7 @@ Theorem C04_run_depends_on_records_only : forall core bt ty gpo gpe tgpe (m1 m2 
   kalign_run_model core bt ty gpo gpe tgpe (map (fun r => (rr_name r, rr_res r)) (i_recs m1)) =
   kalign_run_model core bt ty gpo gpe tgpe (map (fun r => (rr_name r, rr_res r)) (i_recs m2)).
 Proof. intros. f_equal. assumption. Qed.
+Print Assumptions C04_run_depends_on_records_only.
 
 (* (c) the kind decision ignores every non-letter entry of the histogram *)
 Theorem C04_kind_ignores_non_letters : forall f1 f2,
